@@ -3,6 +3,8 @@
 HOOK_COMMITS = ["8eb6fb7e966ea020d53ffa53eb464d5e25f195d3"]
 
 ENGINES = [
+    dict(name="codec", path="harness/cmd/h/eng_codec.go", serves_properties=["C08"],
+         kind_free_text="differential: real Hnsw.Save bytes vs the Lean byte-format model (decode, re-encode, view, bounds); Load(Save(s)) oracle through 5 fragmenting reader kinds into fresh/used targets with a sentinel tail; truncation accept/reject agreement"),
     dict(name="routing", path="harness/cmd/h/eng_routing.go", serves_properties=["C10"],
          kind_free_text="differential: utils.UuidMod and Dataset routing (single-item and batch path) vs the Lean model on edge/random ids x moduli 1..1024 and powers of two"),
     dict(name="placement", path="harness/cmd/h/eng_placement.go", serves_properties=["C16"],
@@ -32,6 +34,11 @@ META = {
         technique="Lean 4 proof (determinism corollaries of the refinement: outcomes and contents are functions of the abstract map; snapshot = reload preserves the refinement) + multi-replica differential run with restore at every cut",
         text="replicas_agree / snapshot_cut / restart_replay (lean/Anndb/Props/C04.lean): any two replicas related to the same map — differing in queue implementation, metric, parameters, fallback choice and graph — report the same outcome for every entry and hold the same contents and counters; restoring a snapshot taken at any cut and applying the suffix equals applying the whole log. Engine partition feeds byte-identical marshalled entries to real stand-alone partitions, restoring the real snapshot at every cut into fresh and used replicas, and compares outcomes, contents and counters pairwise and against the model.",
         note="Trusted: as C02; Hnsw.Save/Load's byte format is C08's subject — here its effect on the state is Index.reload, and the real Save/Load is exercised at every cut.",
+    ),
+    "C08": dict(
+        technique="Lean 4 round-trip proof of the byte format (combinator lemmas; exact consumption; header) + allocation bound + regenerated no-bare-Read fact + differential decode of real Save output and Load(Save) oracle over fragmenting readers",
+        text="roundtrip / roundtrip_nonempty / roundtrip_with_header (lean/Anndb/Props/C08.lean): for every file within the explicit bounds File.wf, decode (encode f ++ rest) = (f, rest) — loading one's own output never fails and consumes exactly what was written; shard_count_bounded: a count read from the stream never exceeds the bytes that follow, so allocations are bounded by the input; no_bare_reads / length_field_widths are regenerated from the loader sources (fragmentation cannot matter when every read is a ReadFull). Engine codec decodes the real Save output of reached states (empty, after removals, hand-overs, exotic metadata incl. non-UTF8, with and without header) under the model — all bytes consumed, byte-identical re-encoding, bounds satisfied, same view as the dumped state — and loads it back through five reader kinds into fresh and used indexes, checking state, counters, entry point and that exactly the appended tail is left unread.",
+        note="Trusted: Lean kernel; goextract; encoding/binary. The mapping between an index state and the records written is tied by the differential run (decoded view = dumped state; loaded state = saved state), not by a Lean theorem; its effect on the graph model is Index.reload (C01/C04).",
     ),
     "C10": dict(
         technique="Lean 4 proof over UInt64 (totality, no-overflow spec) with the routing function regenerated from source by a translator and tied by rfl + call-site facts + differential run on UuidMod and on both Dataset routing paths",
